@@ -6,6 +6,9 @@ from .core import coq_eval_many, parse_count_fail, proof_stage
 
 K_HONEST = 1e4          # true error <= K * error_estimate + FLOOR * local scale  (calibrated: worst observed ratio 3.6e2)
 FLOOR = 1e-9
+# rounding floor of an n-th difference quotient relative to the local scale: eps |f| / h^n grows with n (a function that is constant to
+# rounding, e.g. tanh(4 x^2) at x = 2.3, legitimately returns 0 with estimate 0 for a derivative of 3e-9)
+FLOOR_N = {1: 1e-9, 2: 1e-9, 3: 1e-9, 4: 1e-8, 5: 1e-7, 6: 1e-6}
 
 
 def vec_family(rng, dim):
@@ -106,20 +109,42 @@ def honesty_sweep(ctx, N):
             for n in range(1, 3 if method == 'multicomplex' else 7):
                 order = int(rng.choice([2, 4]))
                 try:
-                    got, info = nd.Derivative(f, n=n, method=method, order=order, full_output=True)(x0)
+                    got, info, rec = pipe.capture_call(nd.Derivative(f, n=n, method=method, order=order, full_output=True), x0)
                 except Exception:   # noqa  (C01 reports exceptions)
                     continue
+                single = 'ex_results' in rec and np.shape(rec['ex_results'])[0] == 1     # one Richardson estimate only: see the recorded finding
                 if not np.isfinite(float(got)) and not domain_ok(f, x0, nd.Derivative(f, n=n, method=method, order=order)):
                     continue          # the real-step stencil leaves the domain of f (NaN evaluations): not an accuracy statement
                 ctx.count(1, ('honesty', method, n))
                 err = abs(float(got) - float(D[n]))
                 est = float(np.ravel(info.error_estimate)[0])
-                if not err <= K_HONEST * est + FLOOR * S:
+                if not err <= K_HONEST * est + FLOOR_N[n] * S:
                     inv_trig = method == 'multicomplex' and n == 2 and any(t in src for t in ('arcsin', 'arccos', 'arctan('))
-                    ctx.violation('honesty:%s:%d%s' % (method, n, ':inverse-trig' if inv_trig else ''),
-                                  'nd.Derivative(lambda x: %s, n=%d, method=%r, order=%d, full_output=True)(%r): true error %.3g but error_estimate %.3g (local scale %.3g)' % (
-                                      src, n, method, order, x0, err, est, S),
+                    ctx.violation('honesty:single-estimate' if single else 'honesty:%s:%d%s' % (method, n, ':inverse-trig' if inv_trig else ''),
+                                  'nd.Derivative(lambda x: %s, n=%d, method=%r, order=%d, full_output=True)(%r): true error %.3g but error_estimate %.3g (local scale %.3g)%s' % (
+                                      src, n, method, order, x0, err, est, S, ' [single estimate]' if single else ''),
                                   {'f': src, 'x': x0, 'n': n, 'method': method, 'order': order, 'value': float(got), 'exact': float(D[n]), 'error_estimate': est, 'local_scale': S})
+                # the same with a user-supplied generator left at its defaults (base step from default_scale, no spare steps)
+                if method != 'multicomplex' and (done + n) % 2 == 0:
+                    order2 = int(rng.choice([1, 2, 3, 4, 6, 8]))
+                    try:
+                        dmin = nd.Derivative(f, n=n, method=method, order=order2, step=nd.MinStepGenerator(), full_output=True)
+                        # without spare steps every step is used: the stencil must stay inside the disc on which f was checked to be tame
+                        if steps_of(dmin, x0)[1] > 0.3 * max(1.0, abs(x0)):
+                            continue
+                        got, info = dmin(x0)
+                    except Exception:   # noqa
+                        continue
+                    if not np.isfinite(float(got)):
+                        continue
+                    ctx.count(1, ('honesty-min-default', method, n))
+                    err = abs(float(got) - float(D[n]))
+                    est = float(np.ravel(info.error_estimate)[0])
+                    if not (np.isfinite(est) and est >= 0 and err <= K_HONEST * est + FLOOR_N[n] * S):
+                        ctx.violation('honesty:single-estimate',
+                                      'nd.Derivative(lambda x: %s, n=%d, method=%r, order=%d, step=nd.MinStepGenerator(), full_output=True)(%r): true error %.3g but error_estimate %.3g (local scale %.3g)' % (
+                                          src, n, method, order2, x0, err, est, S),
+                                      {'f': src, 'x': x0, 'n': n, 'method': method, 'order': order2, 'step': 'nd.MinStepGenerator()', 'value': float(got), 'exact': float(D[n]), 'error_estimate': est, 'local_scale': S})
     # Gradient / Jacobian / Hessdiag / Hessian on the analytic family
     for k in range(max(4, N // 2)):
         dim = int(rng.integers(1, 5))
@@ -141,6 +166,66 @@ def honesty_sweep(ctx, N):
                     i = int(np.argmax(err - K_HONEST * est))
                     ctx.violation('honesty:%s:%s' % (cname, method), 'nd.%s(f, method=%r, full_output=True)(x): entry %d has true error %.3g but error_estimate %.3g' % (
                         cname, method, i, float(np.ravel(err)[i]), float(np.ravel(est)[i])), dict(par, x=x.tolist(), method=method, cls=cname))
+
+
+def nan_inside_cases(ctx):
+    """one stencil point of one trial step (not the largest) hits a removable singularity exactly: the estimates contain NaN in the
+    middle of the step sequence.  The result is finite, so its error estimate must be finite, non-negative and honest."""
+    import numdifftools as nd
+    sinc = lambda t: np.sin(t) / t                                        # noqa
+    d1 = lambda t: (t * np.cos(t) - np.sin(t)) / t ** 2                    # noqa
+    d2 = lambda t: (-(t * t - 2) * np.sin(t) - 2 * t * np.cos(t)) / t ** 3  # noqa
+    hits = 0
+    for k in range(3, 9):
+        x0 = 2.0 ** -k
+        for method in ('central', 'forward', 'backward'):
+            for n, exact in ((1, d1(x0)), (2, d2(x0))):
+                seen = []
+
+                def f(t):
+                    v = sinc(t)
+                    seen.append(bool(np.any(np.isnan(v))))
+                    return v
+                with np.errstate(all='ignore'):
+                    got, info = nd.Derivative(f, n=n, method=method, full_output=True)(x0)
+                nan_rows = [i for i, b in enumerate(seen[1:]) if b]
+                if not nan_rows:
+                    continue
+                hits += 1
+                ctx.count(1, ('nan-inside', 'Derivative', method, n))
+                desc = {'class': 'Derivative', 'f': 'sin(x)/x', 'x': x0, 'n': n, 'method': method, 'nan_at_evaluations': nan_rows[:4]}
+                est = float(np.ravel(info.error_estimate)[0])
+                if np.isfinite(float(got)) and not (np.isfinite(est) and est >= 0):
+                    ctx.violation('record:estimate:nan-inside', 'nd.Derivative(lambda x: sin(x)/x, n=%d, method=%r, full_output=True)(2**-%d) = %r is finite but error_estimate is %r (one trial step evaluates f at 0 exactly)' % (
+                        n, method, k, float(got), est), desc)
+                elif np.isfinite(float(got)) and not abs(float(got) - exact) <= K_HONEST * est + FLOOR:
+                    ctx.violation('honesty:nan-inside:%s' % method, 'nd.Derivative(lambda x: sin(x)/x, n=%d, method=%r, full_output=True)(2**-%d): true error %.3g but error_estimate %.3g' % (
+                        n, method, k, abs(float(got) - exact), est), desc)
+        # multivariate: coordinate 0 sits on one of its own trial steps
+        for cname in ('Gradient', 'Jacobian', 'Hessdiag', 'Hessian'):
+            for method in ('central', 'forward'):
+                x = np.array([x0, 0.7])
+                g = lambda t: sinc(t[0]) + np.exp(0.5 * t[1]) * (1 + 0 * t[0])   # noqa
+                with np.errstate(all='ignore'):
+                    try:
+                        got, info = getattr(nd, cname)(g, method=method, full_output=True)(x)
+                    except Exception as ex:   # noqa
+                        ctx.violation('raises:nan-inside:%s' % cname, 'nd.%s(sinc(x0) + exp(x1/2), method=%r)([2**-%d, 0.7]) raises %r' % (cname, method, k, ex), {'class': cname, 'x': x.tolist(), 'method': method})
+                        continue
+                ctx.count(1, ('nan-inside', cname, method))
+                v = np.ravel(got)
+                e = np.ravel(np.broadcast_to(np.asarray(info.error_estimate).reshape(np.shape(got)) if np.size(info.error_estimate) == np.size(got) else np.asarray(info.error_estimate), np.shape(got)))
+                exact = {'Gradient': np.array([d1(x0), 0.5 * np.exp(0.35)]), 'Jacobian': np.array([d1(x0), 0.5 * np.exp(0.35)]),
+                         'Hessdiag': np.array([d2(x0), 0.25 * np.exp(0.35)]), 'Hessian': np.array([d2(x0), 0.0, 0.0, 0.25 * np.exp(0.35)])}[cname]
+                fin = np.isfinite(v)
+                desc = {'class': cname, 'f': 'sin(x0)/x0 + exp(x1/2)', 'x': x.tolist(), 'method': method}
+                if not (np.all(np.isfinite(e[fin])) and np.all(e[fin] >= 0)):
+                    ctx.violation('record:estimate:nan-inside', 'nd.%s(sin(x0)/x0 + exp(x1/2), method=%r, full_output=True)([2**-%d, 0.7]) = %r is finite but error_estimate is %r' % (
+                        cname, method, k, v.tolist(), e.tolist()), desc)
+                elif not np.all(np.abs(v - exact)[fin] <= K_HONEST * e[fin] + FLOOR * 100):
+                    ctx.violation('honesty:nan-inside:%s' % cname, 'nd.%s(sin(x0)/x0 + exp(x1/2), method=%r, full_output=True)([2**-%d, 0.7]): true error %r but error_estimate %r' % (
+                        cname, method, k, np.abs(v - exact).tolist(), e.tolist()), desc)
+    ctx.cov['nan_inside_cases_with_nan'] = hits
 
 
 def run(ctx):
@@ -220,6 +305,7 @@ def run(ctx):
     ctx.cov['traces_validated_against_impl'] = len(cases)
     ctx.cov['correspondence_disagreements'] = nbad
     ctx.cov['skipped'] = skipped
+    nan_inside_cases(ctx)
     honesty_sweep(ctx, ctx.n(15, 300))
     ctx.assumptions += ['PARTIAL: proved = the estimate is non-negative for every input and branch and belongs to the returned value (same index); "true error <= K x estimate + floor" is NOT a theorem for any finite-sample estimator: explored by the sweep with K = 1e4, floor = 1e-9 x local scale (calibrated on the unchanged tree, worst observed ratio 3.6e2)',
                         'every constant of the estimator (12.7062047361747, EPS*10, tol*10, trim 10, 1.5 IQR, 1e-8, the tie rule) is pinned in the model: changing one breaks the bit-exact tie',
